@@ -488,7 +488,7 @@ func subject(op string, req pmsg) string {
 		for _, k := range req.all(1) {
 			parts = append(parts, string(k.b))
 		}
-	case "memcache.Set":
+	case "memcache.Set", "memcache.Delete":
 		for _, it := range req.all(1) {
 			parts = append(parts, pparse(it.b).str(2))
 		}
@@ -569,6 +569,18 @@ func (f *fakeAE) exec(ctx context.Context, op string, req pmsg) (resp []byte) {
 				g := appendBytes(appendBytes(nil, 2, k.b), 3, it.val)
 				g = protowire.AppendFixed32(protowire.AppendTag(g, 4, protowire.Fixed32Type), it.flags)
 				resp = appendGroup(resp, 1, g)
+			}
+		}
+		return resp
+
+	case "memcache.Delete": // {group Item=1 {key=2, delete_time=3}*} -> {delete_status=1*} (1 DELETED, 2 NOT_FOUND)
+		for _, g := range req.all(1) {
+			key := pparse(g.b).str(2)
+			if _, ok := f.mc[key]; ok {
+				delete(f.mc, key)
+				resp = appendVarint(resp, 1, 1)
+			} else {
+				resp = appendVarint(resp, 1, 2)
 			}
 		}
 		return resp
